@@ -18,7 +18,7 @@ def run(tier):
              consts=core.consts(Alpha=A('open', 'reject', 'poll', 'post', 'api', 'send', 'tick'),
                                 BodyProfile='"close"', MaxMsg=1, Horizon=7 if th else 6,
                                 MaxReq=6 if th else 5, MaxQ=4, MaxEv=4),
-             invariants=INVS, properties=['C07_NoFalseTimeout'], min_states=1000),
+             invariants=INVS, properties=['C07_NoFalseTimeout', 'H_AppendOnly'], min_states=1000),
         dict(name='websocket: CLOSE frame, drop, oversize, writer/reader timeouts, disconnect(), '
                   'timed, asyncio read timeout',
              consts=core.consts(Alpha=A('openws', 'wsio', 'wsburst', 'api', 'send', 'tick'),
@@ -67,6 +67,10 @@ def run(tier):
         plans.append(dict(what='frames buffered behind a CLOSE frame (websocket-only and upgraded)',
                           impl=impl, cfg={'ping_interval': 8, 'ping_timeout': 4}, nslots=1,
                           scripts=buffered_scripts()))
+    for mon in (False, True):
+        plans.append(core.preempt_plan(seed + int(mon), 300 if th else 40, 30, 2, w,
+                                       {'ping_interval': 8, 'ping_timeout': 4, 'monitor': mon},
+                                       'every end cause, monitor=%s' % mon, tstep=(1, 8)))
     core.conform(ck, plans, invariants=core.STATE_INVS + ['C05_NothingAfterDisc',
                                                           'C05_NothingAfterDiscStrict'])
     ck.cov['rule'] = ('case = one environment script on one implementation/configuration; distinct by '
